@@ -190,7 +190,15 @@ class Gen:
                 p["minobs"] = NA
                 p["minperiod"] = r.choice([d, 2 * d, 3 * d])
                 p["period"] = r.choice([2 * d, 3 * d, 4 * d])
-        return mk("att", x=self.series(n, lo=-3, hi=3), t=t, p=p)
+        x = self.series(n, lo=-3, hi=3)
+        pres = [v for v in x if v != NA]
+        if kind == "range" and len(pres) >= 2 and r.random() < 0.5:
+            # a threshold exactly equal to an occurring spread (max - min of a run of present values)
+            i = r.randrange(len(pres) - 1)
+            j = r.randint(i + 1, len(pres) - 1)
+            sp = max(pres[i:j + 1]) - min(pres[i:j + 1])
+            p[r.choice(["st", "ft"])] = [sp, 1]
+        return mk("att", x=x, t=t, p=p)
 
     def dens(self):
         r = self.r
@@ -385,6 +393,15 @@ class Gen:
         elif fn == "att":
             p["st"] = [p["st"][0] + r.choice([0, 1, 2]), p["st"][1]]
             p["ft"] = [p["ft"][0] + r.choice([0, 1, 2]), p["ft"][1]]
+            pres = [v for v in c["x"] if v != NA]
+            if p["kind"] == "range" and len(pres) >= 2 and r.random() < 0.5:
+                # tighten a threshold exactly onto an occurring spread
+                i = r.randrange(len(pres) - 1)
+                j = r.randint(i + 1, len(pres) - 1)
+                sp = max(pres[i:j + 1]) - min(pres[i:j + 1])
+                for key in ("ft", "st"):
+                    if sp * c["p"][key][1] >= c["p"][key][0] and r.random() < 0.6:
+                        p[key] = [sp, 1]
         elif fn == "dens":
             for k in ("st", "ft"):
                 if p[k]:
@@ -411,6 +428,10 @@ class Gen:
             if fn not in ("spike", "roc", "flat", "att", "dens"):
                 return None
             rel["k"] = r.choice([1, -1, 7, 100, -64, 1000])
+            if fn != "att" and r.random() < 0.3:
+                # a large offset (exact in float64): a rule that looks at the value's magnitude (relative tolerances,
+                # float32 round trips) shows only when |value| is many orders of magnitude above the differences
+                rel["k"] = r.choice([2 ** 20, -(2 ** 21)])
             d["x"] = add(c["x"], rel["k"])
             return rel, d
         if kind == "negate":
